@@ -55,9 +55,15 @@ func runC14Sio(c *sim.Ctx, t *testing.T, failing bool) {
 	}
 	logged := map[string]int{} // per machine: how many log entries were already accounted for
 	shape := ""
+	poisoned := map[string]bool{}
 	for k := 0; k < nmsgs; k++ {
 		msg := g.message(2)
-		want := vfPredict(msg, present, recorders)
+		if c.Chance(1, 6, "wreck") {
+			// (only on a submitted message: the order within a round of a cascade is unspecified)
+			msg["wreck"] = map[string]interface{}{mids[c.Intn(nm, "wrecked")]: true}
+			c.Count("machines_told_to_wreck")
+		}
+		want := vfPredict(msg, present, recorders, poisoned)
 		var res *Result
 		var perr error
 		if c.Guard("ProcessMsg "+ref.Canon(msg), func() { res, perr = crew.ProcessMsg(ctx, vfJSONCopy(msg)) }) {
